@@ -1,4 +1,898 @@
-//! engine `tendril` (stub)
-pub fn run(_fields: &[&str]) -> String {
-    "unimplemented".to_string()
+//! engine `tendril`: op sequences over a pool of 4 tendrils (see
+//! lean/H5V/Model/TendrilDriver.lean for the protocol), every format × both atomicities, with
+//!  * a `Vec<u8>` pool maintained alongside (`ORACLE-MISMATCH` in the output on divergence),
+//!  * the allocation ledger of `crate::alloc_ledger` (events per op, balance and anomalies at
+//!    the end of the case),
+//!  * a multi-thread family (atomicity field `T`): clones / subtendrils / SendTendrils of one
+//!    buffer spread over 4 threads that run action scripts concurrently.
+use crate::alloc_ledger::{self as ledger, Ev};
+use crate::proto::*;
+use std::panic::{catch_unwind, AssertUnwindSafe};
+use tendril::fmt::{self, Format};
+use tendril::{Atomic, Atomicity, NonAtomic, SendTendril, SubtendrilError, Tendril};
+
+const SLOTS: usize = 4;
+
+/// per-format capabilities that are not expressible generically (they need `SliceFormat` /
+/// `CharFormat` bounds); `None` = the format does not offer the operation
+trait Fm: Format + Sized + 'static {
+    const NAME: &'static str;
+    fn from_slice<A: Atomicity>(_b: &[u8]) -> Option<Tendril<Self, A>> {
+        None
+    }
+    fn push_slice<A: Atomicity>(_t: &mut Tendril<Self, A>, _b: &[u8]) -> Option<()> {
+        None
+    }
+    fn has_slice() -> bool {
+        false
+    }
+    fn has_chars() -> bool {
+        false
+    }
+    fn try_push_char<A: Atomicity>(_t: &mut Tendril<Self, A>, _c: char) -> Result<(), ()> {
+        Err(())
+    }
+    fn pop_front_char<A: Atomicity>(_t: &mut Tendril<Self, A>) -> Option<char> {
+        None
+    }
+    fn pop_front_char_run<A: Atomicity>(
+        _t: &mut Tendril<Self, A>,
+        _k: u32,
+    ) -> Option<(Tendril<Self, A>, u32)> {
+        None
+    }
+    fn set_byte<A: Atomicity>(_t: &mut Tendril<Self, A>, _k: usize, _v: u8) -> bool {
+        false
+    }
+    /// independent validity check for the `Vec<u8>` oracle
+    fn oracle_valid(b: &[u8]) -> bool;
+}
+
+fn classifier(k: u32, c: char) -> u32 {
+    let c = c as u32;
+    match k {
+        0 => (c == 0x20 || c == 0x0A || c == 0x09) as u32,
+        1 => (c < 0x80) as u32,
+        _ => c % 2,
+    }
+}
+
+macro_rules! char_impls {
+    () => {
+        fn has_chars() -> bool {
+            true
+        }
+        fn try_push_char<A: Atomicity>(t: &mut Tendril<Self, A>, c: char) -> Result<(), ()> {
+            t.try_push_char(c)
+        }
+        fn pop_front_char<A: Atomicity>(t: &mut Tendril<Self, A>) -> Option<char> {
+            t.pop_front_char()
+        }
+        fn pop_front_char_run<A: Atomicity>(
+            t: &mut Tendril<Self, A>,
+            k: u32,
+        ) -> Option<(Tendril<Self, A>, u32)> {
+            t.pop_front_char_run(|c| classifier(k, c))
+        }
+    };
+}
+
+impl Fm for fmt::Bytes {
+    const NAME: &'static str = "bytes";
+    fn has_slice() -> bool {
+        true
+    }
+    fn from_slice<A: Atomicity>(b: &[u8]) -> Option<Tendril<Self, A>> {
+        Some(Tendril::from_slice(b))
+    }
+    fn push_slice<A: Atomicity>(t: &mut Tendril<Self, A>, b: &[u8]) -> Option<()> {
+        t.push_slice(b);
+        Some(())
+    }
+    fn set_byte<A: Atomicity>(t: &mut Tendril<Self, A>, k: usize, v: u8) -> bool {
+        t[k] = v;
+        true
+    }
+    fn oracle_valid(_: &[u8]) -> bool {
+        true
+    }
+}
+impl Fm for fmt::UTF8 {
+    const NAME: &'static str = "utf8";
+    fn has_slice() -> bool {
+        true
+    }
+    fn from_slice<A: Atomicity>(b: &[u8]) -> Option<Tendril<Self, A>> {
+        std::str::from_utf8(b).ok().map(Tendril::from_slice)
+    }
+    fn push_slice<A: Atomicity>(t: &mut Tendril<Self, A>, b: &[u8]) -> Option<()> {
+        std::str::from_utf8(b).ok().map(|s| t.push_slice(s))
+    }
+    char_impls!();
+    fn oracle_valid(b: &[u8]) -> bool {
+        std::str::from_utf8(b).is_ok()
+    }
+}
+impl Fm for fmt::ASCII {
+    const NAME: &'static str = "ascii";
+    char_impls!();
+    fn oracle_valid(b: &[u8]) -> bool {
+        b.iter().all(|&x| x < 0x80)
+    }
+}
+impl Fm for fmt::Latin1 {
+    const NAME: &'static str = "latin1";
+    char_impls!();
+    fn oracle_valid(_: &[u8]) -> bool {
+        true
+    }
+}
+impl Fm for fmt::WTF8 {
+    const NAME: &'static str = "wtf8";
+    fn oracle_valid(b: &[u8]) -> bool {
+        wtf8_units(b).is_some()
+    }
+}
+
+/// generalized UTF-8 decoder for the oracle: code points incl. surrogates, `None` if ill-formed or
+/// if a lead surrogate is directly followed by a trail surrogate (not WTF-8)
+fn wtf8_units(b: &[u8]) -> Option<Vec<(usize, u32)>> {
+    let mut out = vec![];
+    let mut i = 0;
+    let mut prev_lead = false;
+    while i < b.len() {
+        let a = b[i];
+        let (n, min, init) = match a {
+            0x00..=0x7F => (1, 0, a as u32),
+            0xC0..=0xDF => (2, 0x80, (a & 0x1F) as u32),
+            0xE0..=0xEF => (3, 0x800, (a & 0x0F) as u32),
+            0xF0..=0xF7 => (4, 0x10000, (a & 0x07) as u32),
+            _ => return None,
+        };
+        if i + n > b.len() {
+            return None;
+        }
+        let mut c = init;
+        for k in 1..n {
+            if b[i + k] & 0xC0 != 0x80 {
+                return None;
+            }
+            c = (c << 6) | (b[i + k] & 0x3F) as u32;
+        }
+        if (n > 1 && c < min) || c > 0x10FFFF {
+            return None;
+        }
+        let trail = (0xDC00..=0xDFFF).contains(&c);
+        if trail && prev_lead {
+            return None;
+        }
+        prev_lead = (0xD800..=0xDBFF).contains(&c);
+        out.push((i, c));
+        i += n;
+    }
+    Some(out)
+}
+
+fn show_events(evs: &[Ev]) -> String {
+    if evs.is_empty() {
+        return "-".into();
+    }
+    evs.iter()
+        .map(|e| match e {
+            // payload capacity = allocation size - size_of::<Header>()
+            Ev::Alloc(s) => format!("A{}", s.wrapping_sub(16)),
+            Ev::Free(s) => format!("F{}", s.wrapping_sub(16)),
+        })
+        .collect::<Vec<_>>()
+        .join(" ")
+}
+
+fn kind_of<F: Fm, A: Atomicity>(t: &Tendril<F, A>) -> char {
+    let d = format!("{:?}", t.as_bytes());
+    if d.contains("(inline:") {
+        'i'
+    } else if d.contains("(owned:") {
+        'o'
+    } else {
+        's'
+    }
+}
+
+fn show_pool<F: Fm, A: Atomicity>(pool: &[Option<Tendril<F, A>>]) -> String {
+    let mut parts = vec![];
+    for (k, s) in pool.iter().enumerate() {
+        match s {
+            None => parts.push("-".to_string()),
+            Some(t) => {
+                let bytes = show_bytes(t.as_bytes());
+                match kind_of(t) {
+                    's' => {
+                        let g = (0..pool.len())
+                            .find(|&j| {
+                                pool[j]
+                                    .as_ref()
+                                    .map(|u| u.is_shared() && u.is_shared_with(t))
+                                    .unwrap_or(false)
+                            })
+                            .unwrap_or(k);
+                        parts.push(format!("s{}:{}", g, bytes))
+                    },
+                    c => parts.push(format!("{}:{}", c, bytes)),
+                }
+            },
+        }
+    }
+    parts.join("|")
+}
+
+fn sub_err(e: SubtendrilError) -> &'static str {
+    match e {
+        SubtendrilError::OutOfBounds => "oob",
+        SubtendrilError::ValidationFailed => "inv",
+    }
+}
+
+/// the `Vec<u8>` reference pool: what an independent owned-string model does
+struct Oracle {
+    pool: Vec<Option<Vec<u8>>>,
+}
+
+fn join_wtf8(a: &mut Vec<u8>, b: &[u8]) {
+    // WTF-8 concatenation: a trailing lead surrogate + a leading trail surrogate become one
+    // supplementary code point
+    if a.len() >= 3 && b.len() >= 3 {
+        let la = &a[a.len() - 3..];
+        if la[0] == 0xED && (0xA0..=0xAF).contains(&la[1]) && b[0] == 0xED && (0xB0..=0xBF).contains(&b[1])
+        {
+            let hi = (((la[1] & 0x0F) as u32) << 6) | (la[2] & 0x3F) as u32;
+            let lo = (((b[1] & 0x0F) as u32) << 6) | (b[2] & 0x3F) as u32;
+            let c = 0x10000 + (hi << 10) + lo;
+            let n = a.len() - 3;
+            a.truncate(n);
+            let ch = char::from_u32(c).unwrap();
+            let mut tmp = [0u8; 4];
+            a.extend_from_slice(ch.encode_utf8(&mut tmp).as_bytes());
+            a.extend_from_slice(&b[3..]);
+            return;
+        }
+    }
+    a.extend_from_slice(b);
+}
+
+fn run_ops<F: Fm, A: Atomicity>(ops: &str) -> String {
+    let mut pool: Vec<Option<Tendril<F, A>>> = (0..SLOTS).map(|_| None).collect();
+    let mut orc = Oracle {
+        pool: vec![None; SLOTS],
+    };
+    let wtf8 = F::NAME == "wtf8";
+    let mut outs: Vec<String> = vec![];
+    for op in ops.split(';') {
+        let parts: Vec<&str> = op.trim().split(' ').collect();
+        let idx = |s: &str| s.parse::<usize>().ok();
+        let num = |s: &str| s.parse::<u32>().ok();
+        let live = |pool: &Vec<Option<Tendril<F, A>>>, i: usize| i < SLOTS && pool[i].is_some();
+        // every arm: Some((result string, expected result string per oracle)) or None = bad-op
+        let mut expect: Option<String> = None;
+        let res: Option<String> = (|| -> Option<String> {
+            match parts.as_slice() {
+                ["new", i] => {
+                    let i = idx(i).filter(|&i| i < SLOTS)?;
+                    let t = ledger::record(|| Tendril::<F, A>::new());
+                    ledger::record(|| pool[i] = Some(t));
+                    orc.pool[i] = Some(vec![]);
+                    expect = Some("ok".into());
+                    Some("ok".into())
+                },
+                ["from", i, rest @ ..] | ["slice", i, rest @ ..] => {
+                    let i = idx(i).filter(|&i| i < SLOTS)?;
+                    let b = parse_bytes(&rest.join(" "))?;
+                    let is_slice = parts[0] == "slice";
+                    if is_slice && !F::has_slice() {
+                        return None;
+                    }
+                    let errs = if is_slice { "inv" } else { "err" };
+                    let ok = F::oracle_valid(&b);
+                    expect = Some(if ok { "ok".into() } else { errs.into() });
+                    if ok {
+                        orc.pool[i] = Some(b.clone());
+                    }
+                    let r = ledger::record(|| {
+                        if is_slice {
+                            F::from_slice::<A>(&b)
+                        } else {
+                            Tendril::<F, A>::try_from_byte_slice(&b).ok()
+                        }
+                    });
+                    match r {
+                        Some(t) => {
+                            ledger::record(|| pool[i] = Some(t));
+                            Some("ok".into())
+                        },
+                        None => Some(errs.into()),
+                    }
+                },
+                ["push", i, rest @ ..] | ["pushs", i, rest @ ..] => {
+                    let i = idx(i).filter(|&i| live(&pool, i))?;
+                    let b = parse_bytes(&rest.join(" "))?;
+                    let is_slice = parts[0] == "pushs";
+                    if is_slice && !F::has_slice() {
+                        return None;
+                    }
+                    let errs = if is_slice { "inv" } else { "err" };
+                    let ok = F::oracle_valid(&b);
+                    expect = Some(if ok { "ok".into() } else { errs.into() });
+                    if ok {
+                        let v = orc.pool[i].as_mut().unwrap();
+                        if wtf8 {
+                            join_wtf8(v, &b)
+                        } else {
+                            v.extend_from_slice(&b)
+                        }
+                    }
+                    let t = pool[i].as_mut().unwrap();
+                    let r = ledger::record(|| {
+                        if is_slice {
+                            F::push_slice(t, &b).is_some()
+                        } else {
+                            t.try_push_bytes(&b).is_ok()
+                        }
+                    });
+                    Some(if r { "ok".into() } else { errs.into() })
+                },
+                ["pushc", i, c] => {
+                    let i = idx(i).filter(|&i| live(&pool, i))?;
+                    let c = u32::from_str_radix(c, 16).ok()?;
+                    if !F::has_chars() {
+                        return None;
+                    }
+                    let limit = match F::NAME {
+                        "ascii" => 0x7F,
+                        "latin1" => 0xFF,
+                        _ => 0x10FFFF,
+                    };
+                    let ch = char::from_u32(c);
+                    let ok = ch.is_some() && c <= limit;
+                    expect = Some(if ok { "ok".into() } else { "err".into() });
+                    if ok {
+                        let v = orc.pool[i].as_mut().unwrap();
+                        if F::NAME == "utf8" {
+                            let mut tmp = [0u8; 4];
+                            v.extend_from_slice(ch.unwrap().encode_utf8(&mut tmp).as_bytes());
+                        } else {
+                            v.push(c as u8);
+                        }
+                    }
+                    match ch {
+                        // not a `char`: the type system rejects the call; same answer as Err
+                        None => Some("err".into()),
+                        Some(ch) => {
+                            let t = pool[i].as_mut().unwrap();
+                            let r = ledger::record(|| F::try_push_char(t, ch));
+                            Some(if r.is_ok() { "ok".into() } else { "err".into() })
+                        },
+                    }
+                },
+                ["pusht", i, j] => {
+                    let i = idx(i).filter(|&i| live(&pool, i))?;
+                    let j = idx(j).filter(|&j| live(&pool, j))?;
+                    if i == j {
+                        return None;
+                    }
+                    let o = orc.pool[j].clone().unwrap();
+                    let v = orc.pool[i].as_mut().unwrap();
+                    if wtf8 {
+                        join_wtf8(v, &o)
+                    } else {
+                        v.extend_from_slice(&o)
+                    }
+                    expect = Some("ok".into());
+                    // split the pool to borrow slot i mutably and slot j immutably
+                    let (a, b) = pool.split_at_mut(i.max(j));
+                    let (t, other) = if i < j {
+                        (a[i].as_mut().unwrap(), b[0].as_ref().unwrap())
+                    } else {
+                        (b[0].as_mut().unwrap(), a[j].as_ref().unwrap())
+                    };
+                    ledger::record(|| t.push_tendril(other));
+                    Some("ok".into())
+                },
+                [p @ ("popf" | "popb" | "tpopf" | "tpopb"), i, n] => {
+                    let i = idx(i).filter(|&i| live(&pool, i))?;
+                    let n = num(n)?;
+                    let front = p.ends_with('f');
+                    let checked = p.starts_with('t');
+                    // oracle
+                    {
+                        let v = orc.pool[i].as_mut().unwrap();
+                        let e = if n == 0 {
+                            "ok"
+                        } else if n as usize > v.len() {
+                            "oob"
+                        } else {
+                            let rest: &[u8] = if front {
+                                &v[n as usize..]
+                            } else {
+                                &v[..v.len() - n as usize]
+                            };
+                            if F::oracle_valid(rest) {
+                                "ok"
+                            } else {
+                                "inv"
+                            }
+                        };
+                        if e == "ok" {
+                            if front {
+                                v.drain(..n as usize);
+                            } else {
+                                let l = v.len() - n as usize;
+                                v.truncate(l);
+                            }
+                        }
+                        expect = Some(if checked || e == "ok" { e.into() } else { "panic".into() });
+                    }
+                    let t = pool[i].as_mut().unwrap();
+                    if checked {
+                        let r = ledger::record(|| {
+                            if front {
+                                t.try_pop_front(n)
+                            } else {
+                                t.try_pop_back(n)
+                            }
+                        });
+                        Some(match r {
+                            Ok(()) => "ok".into(),
+                            Err(e) => sub_err(e).into(),
+                        })
+                    } else {
+                        let r = catch_unwind(AssertUnwindSafe(|| {
+                            ledger::record(|| if front { t.pop_front(n) } else { t.pop_back(n) })
+                        }));
+                        Some(if r.is_ok() { "ok".into() } else { "panic".into() })
+                    }
+                },
+                [p @ ("sub" | "tsub"), i, j, off, len] => {
+                    let i = idx(i).filter(|&i| live(&pool, i))?;
+                    let j = idx(j).filter(|&j| j < SLOTS)?;
+                    let off = num(off)?;
+                    let len = num(len)?;
+                    let checked = *p == "tsub";
+                    {
+                        let v = orc.pool[i].as_ref().unwrap();
+                        let e = if off as usize > v.len() || len as usize > v.len() - off as usize {
+                            "oob"
+                        } else if F::oracle_valid(&v[off as usize..(off + len) as usize]) {
+                            "ok"
+                        } else {
+                            "inv"
+                        };
+                        if e == "ok" {
+                            let s = v[off as usize..(off + len) as usize].to_vec();
+                            orc.pool[j] = Some(s);
+                        }
+                        expect = Some(if checked || e == "ok" { e.into() } else { "panic".into() });
+                    }
+                    let r = catch_unwind(AssertUnwindSafe(|| {
+                        let t = pool[i].as_ref().unwrap();
+                        ledger::record(|| {
+                            if checked {
+                                t.try_subtendril(off, len)
+                            } else {
+                                Ok(t.subtendril(off, len))
+                            }
+                        })
+                    }));
+                    Some(match r {
+                        Err(_) => "panic".into(),
+                        Ok(Err(e)) => sub_err(e).into(),
+                        Ok(Ok(s)) => {
+                            ledger::record(|| pool[j] = Some(s));
+                            "ok".into()
+                        },
+                    })
+                },
+                ["clone", i, j] => {
+                    let i = idx(i).filter(|&i| live(&pool, i))?;
+                    let j = idx(j).filter(|&j| j < SLOTS)?;
+                    orc.pool[j] = orc.pool[i].clone();
+                    expect = Some("ok".into());
+                    let c = ledger::record(|| pool[i].as_ref().unwrap().clone());
+                    ledger::record(|| pool[j] = Some(c));
+                    Some("ok".into())
+                },
+                ["clear", i] => {
+                    let i = idx(i).filter(|&i| live(&pool, i))?;
+                    orc.pool[i].as_mut().unwrap().clear();
+                    expect = Some("ok".into());
+                    let t = pool[i].as_mut().unwrap();
+                    ledger::record(|| t.clear());
+                    Some("ok".into())
+                },
+                ["drop", i] => {
+                    let i = idx(i).filter(|&i| live(&pool, i))?;
+                    orc.pool[i] = None;
+                    expect = Some("ok".into());
+                    ledger::record(|| pool[i] = None);
+                    Some("ok".into())
+                },
+                ["popc", i] => {
+                    let i = idx(i).filter(|&i| live(&pool, i))?;
+                    if !F::has_chars() {
+                        return None;
+                    }
+                    {
+                        let v = orc.pool[i].as_mut().unwrap();
+                        let e = if v.is_empty() {
+                            "c=-".to_string()
+                        } else if F::NAME == "utf8" {
+                            let s = std::str::from_utf8(v).ok()?;
+                            let c = s.chars().next().unwrap();
+                            let n = c.len_utf8();
+                            v.drain(..n);
+                            format!("c={:x}", c as u32)
+                        } else {
+                            let c = v.remove(0);
+                            format!("c={:x}", c)
+                        };
+                        expect = Some(e);
+                    }
+                    let t = pool[i].as_mut().unwrap();
+                    let r = ledger::record(|| F::pop_front_char(t));
+                    Some(match r {
+                        None => "c=-".into(),
+                        Some(c) => format!("c={:x}", c as u32),
+                    })
+                },
+                ["popr", i, j, k] => {
+                    let i = idx(i).filter(|&i| live(&pool, i))?;
+                    let j = idx(j).filter(|&j| j < SLOTS && j != i)?;
+                    let k = num(k).filter(|&k| k < 3)?;
+                    if !F::has_chars() {
+                        return None;
+                    }
+                    {
+                        let v = orc.pool[i].as_mut().unwrap();
+                        let chars: Vec<(usize, u32)> = if F::NAME == "utf8" {
+                            std::str::from_utf8(v)
+                                .ok()?
+                                .char_indices()
+                                .map(|(i, c)| (i, c as u32))
+                                .collect()
+                        } else {
+                            v.iter().enumerate().map(|(i, &b)| (i, b as u32)).collect()
+                        };
+                        let e = if chars.is_empty() {
+                            "r=-".to_string()
+                        } else {
+                            let cl = |c: u32| classifier(k, char::from_u32(c).unwrap());
+                            let cls = cl(chars[0].1);
+                            let cut = chars
+                                .iter()
+                                .find(|&&(_, c)| cl(c) != cls)
+                                .map(|&(i, _)| i)
+                                .unwrap_or(v.len());
+                            let run: Vec<u8> = v.drain(..cut).collect();
+                            orc.pool[j] = Some(run);
+                            format!("r={}", cls)
+                        };
+                        expect = Some(e);
+                    }
+                    let t = pool[i].as_mut().unwrap();
+                    let r = ledger::record(|| F::pop_front_char_run(t, k));
+                    Some(match r {
+                        None => "r=-".into(),
+                        Some((run, cls)) => {
+                            ledger::record(|| pool[j] = Some(run));
+                            format!("r={}", cls)
+                        },
+                    })
+                },
+                ["send", i] => {
+                    let i = idx(i).filter(|&i| live(&pool, i))?;
+                    expect = Some("ok".into());
+                    let t = pool[i].take().unwrap();
+                    let back = ledger::record(|| {
+                        let s: SendTendril<F> = t.into_send();
+                        Tendril::<F, A>::from(s)
+                    });
+                    pool[i] = Some(back);
+                    Some("ok".into())
+                },
+                ["reserve", i, n] => {
+                    let i = idx(i).filter(|&i| live(&pool, i))?;
+                    let n = num(n)?;
+                    expect = Some("ok".into());
+                    let t = pool[i].as_mut().unwrap();
+                    ledger::record(|| t.reserve(n));
+                    Some("ok".into())
+                },
+                ["withcap", i, n] => {
+                    let i = idx(i).filter(|&i| i < SLOTS)?;
+                    let n = num(n)?;
+                    expect = Some("ok".into());
+                    orc.pool[i] = Some(vec![]);
+                    let t = ledger::record(|| Tendril::<F, A>::with_capacity(n));
+                    ledger::record(|| pool[i] = Some(t));
+                    Some("ok".into())
+                },
+                ["setb", i, k, v] => {
+                    let i = idx(i).filter(|&i| live(&pool, i))?;
+                    let k = idx(k)?;
+                    let v = u8::from_str_radix(v, 16).ok()?;
+                    if F::NAME != "bytes" {
+                        return None;
+                    }
+                    {
+                        let o = orc.pool[i].as_mut().unwrap();
+                        if k < o.len() {
+                            o[k] = v;
+                            expect = Some("ok".into());
+                        } else {
+                            expect = Some("panic".into());
+                        }
+                    }
+                    let t = pool[i].as_mut().unwrap();
+                    let r = catch_unwind(AssertUnwindSafe(|| ledger::record(|| F::set_byte(t, k, v))));
+                    Some(if r.is_ok() { "ok".into() } else { "panic".into() })
+                },
+                _ => None,
+            }
+        })();
+        let evs = ledger::take_events();
+        let mut r = match res {
+            Some(r) => r,
+            None => "bad-op".to_string(),
+        };
+        // harness-internal oracle: result code and bytes of every slot
+        if let Some(e) = &expect {
+            if res_differs(&r, e) {
+                r.push_str(&format!(" ORACLE-MISMATCH(result want {})", e));
+            }
+        }
+        for k in 0..SLOTS {
+            let got = pool[k].as_ref().map(|t| t.as_bytes().to_vec());
+            if r != "bad-op" && got != orc.pool[k] {
+                r.push_str(&format!(" ORACLE-MISMATCH(slot {})", k));
+                // resynchronise so that one divergence is reported once
+                orc.pool[k] = got;
+            }
+        }
+        outs.push(format!("{}|{}|{}", r, show_events(&evs), show_pool(&pool)));
+    }
+    ledger::record(|| {
+        for s in pool.iter_mut() {
+            *s = None;
+        }
+    });
+    let evs = ledger::take_events();
+    let live = ledger::live();
+    let anomalies = ledger::end_case();
+    let mut fin = format!("end|{}|live={}", show_events(&evs), live);
+    for a in anomalies {
+        fin.push_str(" !");
+        fin.push_str(&a);
+    }
+    outs.push(fin);
+    outs.join(";")
+}
+
+fn res_differs(got: &str, want: &str) -> bool {
+    got != want
+}
+
+// ------------------------------------------------------------------ multi-thread family
+
+fn checksum(acc: u64, b: &[u8]) -> u64 {
+    let mut h = acc ^ 0xcbf29ce484222325;
+    for &x in b {
+        h = (h ^ x as u64).wrapping_mul(0x100000001b3);
+    }
+    h.wrapping_mul(31).wrapping_add(b.len() as u64)
+}
+
+/// one thread's script over its own vector of tendrils; returns a checksum of every tendril's
+/// bytes after every action (no allocation besides tendril's own)
+fn run_script<F: Fm, A: Atomicity>(ts: &mut Vec<Tendril<F, A>>, script: &str) -> u64 {
+    let mut cs: u64 = 0;
+    for a in script.chars() {
+        match a {
+            'c' => {
+                if let Some(t) = ts.last() {
+                    if ts.len() < ts.capacity() {
+                        let c = t.clone();
+                        ts.push(c);
+                    }
+                }
+            },
+            'd' => {
+                if !ts.is_empty() {
+                    ts.remove(0);
+                }
+            },
+            'D' => {
+                ts.pop();
+            },
+            'p' => {
+                if let Some(t) = ts.first_mut() {
+                    let _ = t.try_push_bytes(b"x");
+                }
+            },
+            's' => {
+                if let Some(t) = ts.first() {
+                    let l = t.len32();
+                    if l >= 2 && ts.len() < ts.capacity() {
+                        if let Ok(s) = t.try_subtendril(1, l - 2) {
+                            ts.push(s);
+                        }
+                    }
+                }
+            },
+            'f' => {
+                if let Some(t) = ts.first_mut() {
+                    let _ = t.try_pop_front(1);
+                }
+            },
+            'b' => {
+                if let Some(t) = ts.last_mut() {
+                    let _ = t.try_pop_back(1);
+                }
+            },
+            'y' => std::thread::yield_now(),
+            _ => {},
+        }
+        for t in ts.iter() {
+            cs = checksum(cs, t.as_bytes());
+        }
+    }
+    cs
+}
+
+/// case: `L=<len>,K=<clones per thread>,M=<a|s|n>,D=<b|a>` `;` 4 scripts
+/// M = a: Atomic clones of one buffer; s: Atomic subtendrils (offset k, len L-2k) of one buffer;
+///     n: NonAtomic tendrils moved as SendTendril (each thread gets private copies)
+/// D = main drops its base tendril before (b) or after (a) joining
+fn run_threads<F: Fm>(spec: &str) -> String {
+    let mut it = spec.split(';');
+    let head = it.next().unwrap_or("");
+    let scripts: Vec<String> = it.map(|s| s.trim().to_string()).collect();
+    if scripts.len() != 4 {
+        return "bad-case".into();
+    }
+    let (mut l, mut k, mut m, mut d) = (33usize, 2usize, 'a', 'a');
+    for kv in head.split(',') {
+        let kv = kv.trim();
+        if let Some(v) = kv.strip_prefix("L=") {
+            l = match v.parse() {
+                Ok(x) => x,
+                Err(_) => return "bad-case".into(),
+            };
+        } else if let Some(v) = kv.strip_prefix("K=") {
+            k = match v.parse() {
+                Ok(x) => x,
+                Err(_) => return "bad-case".into(),
+            };
+        } else if let Some(v) = kv.strip_prefix("M=") {
+            m = v.chars().next().unwrap_or('?');
+        } else if let Some(v) = kv.strip_prefix("D=") {
+            d = v.chars().next().unwrap_or('?');
+        } else {
+            return "bad-case".into();
+        }
+    }
+    if !matches!(m, 'a' | 's' | 'n') || !matches!(d, 'a' | 'b') || l > 4096 || k > 16 {
+        return "bad-case".into();
+    }
+    let data: Vec<u8> = (0..l).map(|i| b'a' + (i % 26) as u8).collect();
+    let cap = k + scripts.iter().map(|s| s.len()).max().unwrap_or(0) + 1;
+    let mut handles = vec![];
+    let mut sums = vec![0u64; 4];
+    if m == 'n' {
+        let mut sends: Vec<Vec<SendTendril<F>>> = vec![];
+        for _ in 0..4 {
+            let mut v = Vec::with_capacity(cap);
+            for j in 0..k {
+                let t = ledger::record_quiet(|| {
+                    let base = Tendril::<F, NonAtomic>::try_from_byte_slice(&data).unwrap();
+                    // shared / owned / inline variety before into_send
+                    let u = if j % 2 == 0 { base.clone() } else { base.subtendril(0, (l as u32).min(5)) };
+                    drop(base);
+                    u.into_send()
+                });
+                v.push(t);
+            }
+            sends.push(v);
+        }
+        for (ti, v) in sends.into_iter().enumerate() {
+            let script = scripts[ti].clone();
+            handles.push(std::thread::spawn(move || {
+                let mut ts: Vec<Tendril<F, NonAtomic>> = Vec::with_capacity(cap);
+                let mut v = v;
+                ledger::record_quiet(|| {
+                    for s in v.drain(..) {
+                        ts.push(Tendril::from(s));
+                    }
+                    let cs = run_script(&mut ts, &script);
+                    ts.clear();
+                    cs
+                })
+            }));
+        }
+        for (ti, h) in handles.into_iter().enumerate() {
+            sums[ti] = h.join().unwrap_or(0xdead);
+        }
+    } else {
+        let base = ledger::record_quiet(|| Tendril::<F, Atomic>::try_from_byte_slice(&data).unwrap());
+        let mut per: Vec<Vec<Tendril<F, Atomic>>> = vec![];
+        for _ in 0..4 {
+            let mut v = Vec::with_capacity(cap);
+            for j in 0..k {
+                let t = ledger::record_quiet(|| {
+                    if m == 'a' || l < 2 * (j + 1) {
+                        base.clone()
+                    } else {
+                        base.subtendril(j as u32, (l - 2 * j) as u32)
+                    }
+                });
+                v.push(t);
+            }
+            per.push(v);
+        }
+        for (ti, v) in per.into_iter().enumerate() {
+            let script = scripts[ti].clone();
+            handles.push(std::thread::spawn(move || {
+                let mut ts = v;
+                ledger::record_quiet(|| {
+                    let cs = run_script(&mut ts, &script);
+                    ts.clear();
+                    cs
+                })
+            }));
+        }
+        if d == 'b' {
+            ledger::record_quiet(|| drop(base));
+            for (ti, h) in handles.into_iter().enumerate() {
+                sums[ti] = h.join().unwrap_or(0xdead);
+            }
+        } else {
+            for (ti, h) in handles.into_iter().enumerate() {
+                sums[ti] = h.join().unwrap_or(0xdead);
+            }
+            ledger::record_quiet(|| drop(base));
+        }
+    }
+    let _ = ledger::take_events();
+    let live = ledger::live();
+    let anomalies = ledger::end_case();
+    let mut out = format!(
+        "thr|{:x}|{:x}|{:x}|{:x}|live={}",
+        sums[0], sums[1], sums[2], sums[3], live
+    );
+    for a in anomalies {
+        out.push_str(" !");
+        out.push_str(&a);
+    }
+    out
+}
+
+pub fn run(fields: &[&str]) -> String {
+    if fields.len() != 3 {
+        return "bad-case".into();
+    }
+    macro_rules! go {
+        ($f:ty) => {
+            match fields[1] {
+                "N" => run_ops::<$f, NonAtomic>(fields[2]),
+                "A" => run_ops::<$f, Atomic>(fields[2]),
+                "T" => run_threads::<$f>(fields[2]),
+                _ => "bad-case".into(),
+            }
+        };
+    }
+    match fields[0] {
+        "bytes" => go!(fmt::Bytes),
+        "utf8" => go!(fmt::UTF8),
+        "ascii" => go!(fmt::ASCII),
+        "latin1" => go!(fmt::Latin1),
+        "wtf8" => go!(fmt::WTF8),
+        _ => "bad-case".into(),
+    }
 }
